@@ -48,7 +48,50 @@ impl Check for GrowthCheck {
                 k.w_txn[10] = 0;
             }
         }
-        let ops = gen_history(&mut rng, &k);
+        let mut ops = gen_history(&mut rng, &k);
+        if rng.chance(0.25) {
+            // boundary configuration: the node table is exactly full (512 records per page)
+            // at the moment of a reopen, then grows on
+            use crate::model::TOp;
+            let pages = *rng.pick(&[1usize, 1, 2, 3]);
+            let target = 512 * pages;
+            let batch = *rng.pick(&[64usize, 128, 200, 512]);
+            let mut ext = 50_000u64;
+            let mut made = 0usize;
+            ops.clear();
+            while made < target {
+                let n = batch.min(target - made);
+                let mut tops: Vec<TOp> = Vec::new();
+                for _ in 0..n {
+                    ext += 1;
+                    tops.push(TOp::CreateNode { ext, labels: if rng.chance(0.5) { vec!["LA".into()] } else { vec![] } });
+                }
+                if rng.chance(0.5) {
+                    tops.push(TOp::SetNodeProp { node: made as u32, key: "k0".into(), val: crate::model::Val::Int(made as i64) });
+                }
+                made += n;
+                ops.push(Op::Txn { ops: tops, commit: true });
+            }
+            let mut other_pages = false;
+            if pages == 1 && rng.chance(0.4) {
+                ops.push(Op::Compact);
+                other_pages = true;
+            }
+            ops.push(if rng.chance(0.5) { Op::CloseReopen } else { Op::DropReopen });
+            let mut tops: Vec<TOp> = Vec::new();
+            let f36 = avoid.iter().any(|a| a == "node_table_growth_with_other_allocations");
+            for _ in 0..rng.range(1, 4) {
+                // F36: record 512 would claim the page a compaction has just been given
+                if !(other_pages && f36) {
+                    ext += 1;
+                    tops.push(TOp::CreateNode { ext, labels: vec![] });
+                }
+            }
+            tops.push(TOp::SetNodeProp { node: (target - 1) as u32, key: "k1".into(), val: crate::model::Val::Int(7) });
+            ops.push(Op::Txn { ops: tops, commit: true });
+            ops.push(Op::DropReopen);
+            k.max_live_nodes = target + 8;
+        }
         Case {
             property: "C18".into(),
             config: "growth_at_scale".into(),
